@@ -145,16 +145,6 @@ def decAst (s : String) : Option (List Pat) :=
 
 /-! classification of an AST outside `WF` (the input classes of the findings) -/
 
-mutual
-def hasLongThreadId : Pat → Bool
-  | .leaf k long _ => k == .threadId && long
-  | .group _ _ body _ => hasLongThreadIdL body
-  | _ => false
-def hasLongThreadIdL : List Pat → Bool
-  | [] => false
-  | p :: ps => hasLongThreadId p || hasLongThreadIdL ps
-end
-
 def doubledClose (l : Lit) : Bool := l.c == ')' && l.esc == .doubled
 
 mutual
@@ -171,18 +161,6 @@ def hasDoubledCloseInArgL (inArg : Bool) : List Pat → Bool
 end
 
 mutual
-def hasMdcNotPlain : Pat → Bool
-  | .mdc _ key dflt _ =>
-    key.isEmpty || !key.all plainLit ||
-      (match dflt with | some d => d.isEmpty || !d.all plainLit | none => false)
-  | .group _ _ body _ => hasMdcNotPlainL body
-  | _ => false
-def hasMdcNotPlainL : List Pat → Bool
-  | [] => false
-  | p :: ps => hasMdcNotPlain p || hasMdcNotPlainL ps
-end
-
-mutual
 def depthOf : Pat → Nat
   | .group _ _ body _ => depthOfL body + 1
   | _ => 0
@@ -194,11 +172,14 @@ end
 mutual
 def featuresOf : Pat → List String
   | .lit l => if l.esc == .plain then [] else [if l.esc == .doubled then "esc-doubled" else "esc-backslash"]
-  | .leaf _ long spec => (if long then ["alias"] else []) ++ (if spec.isSome then ["spec"] else [])
+  | .leaf k long spec => (if long then ["alias"] else []) ++ (if spec.isSome then ["spec"] else []) ++
+      (if k == .threadId && long then ["thread_id"] else [])
   | .date long args spec => "date" :: (if long then ["alias"] else []) ++ (if spec.isSome then ["spec"] else []) ++
       (match args with | some (_, some _) => ["zone"] | _ => [])
-  | .mdc long _ dflt spec => "mdc" :: (if long then ["alias"] else []) ++ (if spec.isSome then ["spec"] else []) ++
-      (if dflt.isSome then ["mdc-default"] else [])
+  | .mdc long key dflt spec => "mdc" :: (if long then ["alias"] else []) ++ (if spec.isSome then ["spec"] else []) ++
+      (if dflt.isSome then ["mdc-default"] else []) ++
+      (if key.any (fun l => l.esc != .plain) || (match dflt with | some d => d.any (fun l => l.esc != .plain) | none => false)
+        then ["mdc-escaped"] else [])
   | .group k long body spec =>
     (match k with | .align => "unnamed" | .highlight => "highlight" | .debug => "debug" | .release => "release") ::
       (if long then ["alias"] else []) ++ (if spec.isSome then ["spec"] else []) ++ featuresOfL body
@@ -209,9 +190,7 @@ end
 
 def classOf (bits : Nat) (ast : List Pat) : String :=
   if wfPats bits false ast then "wf"
-  else if hasLongThreadIdL ast then "thread_id-alias"
   else if hasDoubledCloseInArgL false ast then "doubled-close-paren-in-argument"
-  else if hasMdcNotPlainL ast then "mdc-argument-not-plain"
   else "outside-wf"
 
 def handle : Handler := fun cas obs =>
@@ -228,22 +207,26 @@ def handle : Handler := fun cas obs =>
           if !C11.classifiable c.pattern then badCase "character outside the sample table" else
           let env := C11.envOf c f
           let model := C11.modelObs c f
+          let build := Build.current env
+          let itemsRejected := (allDatesPats ast).any (fun fm => !build.dateOk fm)
           let cls := classOf C11.profile.wordBits ast
           let feats := (featuresOfL ast).eraseDups
           let tags := cls :: ("depth" ++ toString (min (depthOfL ast) 6)) :: feats ++
             (if f.masked then ["masked"] else []) ++
+            (if itemsRejected then ["date-format-rejected"] else []) ++
             (if feats.isEmpty then ["trivial"] else [])
           let sigOf (what : String) : String :=
             if cls = "wf" then "C09/" ++ what else "C09/" ++ cls
           let spec :=
             if implOutcome.startsWith "PANIC" then
-              let bad := (datesPats env ast).any (fun (fm, u) => !env.strftimeOk fm u)
+              let bad := (datesPats env ast).any (fun (fm, _) => !env.strftimeOk fm)
               if bad then "FAIL:panic at encode;sig=C09/invalid-strftime" else "FAIL:panic;sig=" ++ sigOf "panic"
             else if implOutcome = "ok" then
               match C11.implText implOps, C11.implStyles implOps with
               | some txt, some sty =>
                 let want := C11.maskDigits f.masked (denotePats env c.record ast)
-                if txt ≠ want then "FAIL:text differs from the pattern's meaning;sig=" ++ sigOf "meaning"
+                if itemsRejected then "ok"   -- outside `DatesOk`: C11's territory
+                else if txt ≠ want then "FAIL:text differs from the pattern's meaning;sig=" ++ sigOf "meaning"
                 else if sty ≠ stylesPats env c.record ast then "FAIL:style calls;sig=" ++ sigOf "styles"
                 else "ok"
               | _, _ => "FAIL:unreadable operation stream;sig=C09/ops"
